@@ -259,6 +259,13 @@ class BundleFlattener(ElabPass):
             msg = f"Invalid Port Connection to {portname} on Instance {inst}"
             self.fail(msg)
 
+        # Check for connections to members the Bundle port does not have
+        extras = [p for p in flat.signals.keys() if p not in flat_bundle_port.signals]
+        if extras:
+            msg = f"Connection to non-existent members `{extras}` "
+            msg += f"of Bundle port `{portname}` on Instance `{inst.name}`. "
+            self.fail(msg)
+
         # Disconnect the old hierarchical Bundle port
         inst.disconnect(portname)
 
